@@ -192,6 +192,13 @@ func handleExceptionSignal(vm *r.VM, blockModule *r.Module, frameDepth int, catc
 		blockErr = zerr.NewExceptionSignal(value.NewException(e.Error()))
 	case *value.Exception:
 		blockErr = zerr.NewExceptionSignal(e)
+	case *zerr.SyntaxError, *zerr.SemanticError, *zerr.IOError, *zerr.Signal:
+		// not exceptions (Function.Exec hands them on as they are, too)
+	default:
+		// the native error of a failing built-in operation (e.g. a numeric format directive
+		// given a text): one call further out Function.Exec makes an exception of it, so it
+		// is one for the handler of this body as well
+		blockErr = zerr.NewExceptionSignal(value.NewException(e.Error()))
 	}
 
 	// try to find if the blockErr is an exception signal
